@@ -986,6 +986,46 @@ pub fn s_isolation(thorough: bool) -> Vec<WCfg> {
         }
         let _ = thorough;
     }
+    // "traffic": A is never frozen. HTLCs for A keep arriving while B's incomplete set waits for its MPP timeout;
+    // B's trace must equal its trace without A (a timer, counter or signal shared between hashes would show).
+    for b_kind in ["partial", "two-parts"] {
+        let mk = |with_a: bool| {
+            let mut c = WCfg::base("x");
+            let ia = c.add_invoice(&InvoiceSpec::fixed(1, 1_000_000));
+            let ib = c.add_invoice(&InvoiceSpec::fixed(2, 2_000_000));
+            if with_a {
+                c.add_htlc("a1", ia, 500_000, 1_005_000);
+                c.add_htlc("a2", ia, 1, 1_005_000);
+            }
+            c.add_htlc("b1", ib, 1_200_000, 2_010_000);
+            if b_kind == "two-parts" {
+                c.add_htlc("b2", ib, 810_000, 2_010_000);
+            }
+            c.max_parts = 1;
+            c.max_crashes = 0;
+            c.advance_menu_ms = vec![60_000, 30_000, 29_999];
+            c.max_advances = 4;
+            c.reorder_delivery = true;
+            c
+        };
+        let solo = {
+            let mut s = mk(false);
+            s.name = format!("S-iso/traffic/{}/solo", b_kind);
+            with_props(s, &[])
+        };
+        let mut c = mk(true);
+        c.name = format!("S-iso/traffic/{}", b_kind);
+        c.prefix = vec!["Deliver(b1)".to_string(), "@answers".to_string(), "Advance(30000ms)".to_string()];
+        let fa = c.invoices[0].hash_hex.clone();
+        let fb = c.invoices[1].hash_hex.clone();
+        c.freeze = Some(crate::engine_w::Freeze {
+            hash_hex: fa,
+            after: u32::MAX,
+            solo,
+            other_hash_hex: fb,
+        });
+        out.push(c);
+    }
     out
 }
 
